@@ -253,6 +253,10 @@ func runC13(c *Ctx) {
 		s := p.Sym(base).String()
 		switch {
 		case strings.HasPrefix(s, "(*math/big.Int).IsUint64("):
+		case isProductCallResult(p, base):
+			// a boolean handed back by a product helper (flatten(rt, minimum) (Rate, bool)): the
+			// engine inlines the helper, its own comparisons are evaluated there, and a constant
+			// answer decides this branch
 		case strings.HasPrefix(s, "(math/bits.Mul64(") || strings.Contains(s, " math/bits.Mul64("):
 			// the overflow guard of the 128-bit form (its shape is checked by V7)
 		case strings.Contains(s, "!= nil)") || strings.Contains(s, "== nil)"):
@@ -332,6 +336,9 @@ func runC13(c *Ctx) {
 		key := fmt.Sprintf("%s#return.%d", p.FnKey(fn), n+1)
 		site := p.InstrPos(ret)
 		rateS := p.Sym(rateV)
+		if rs := p.tupleResultAt(rateV, ret); rs != nil {
+			rateS = rs // the Rate handed back by a helper, on the branch its boolean companion selects
+		}
 		isZeroRate := false
 		if cst, ok := rateV.(*ssa.Const); ok && cst.Value == nil {
 			isZeroRate = true
@@ -501,6 +508,75 @@ func shortErr(s string) string {
 
 // isQuantityFloor: qS is result #0 of a helper computing floor(Quantity*minimum/Interval) in big integers,
 // called with (rt.Quantity, minimum, rt.Interval).
+// tupleResultAt: v is component k of the results of a product helper with several returns, used at
+// `at` under tests of its boolean companions (`if r, ok := helper(); ok { return r }`): the returns of
+// the helper that agree with those tests; the value of component k when exactly one remains.
+func (p *Prog) tupleResultAt(v ssa.Value, at ssa.Instruction) *Sym {
+	ex, ok := v.(*ssa.Extract)
+	if !ok {
+		return nil
+	}
+	call, ok := ex.Tuple.(*ssa.Call)
+	if !ok {
+		return nil
+	}
+	callee := p.Callee(call)
+	if callee == nil || !p.IsProduct(callee) {
+		return nil
+	}
+	want := map[int]bool{}
+	for _, e := range InstrDomEdges(at) {
+		iff := e.From.Instrs[len(e.From.Instrs)-1].(*ssa.If)
+		base, neg := condOf(iff.Cond)
+		if ex2, isEx := base.(*ssa.Extract); isEx && ex2.Tuple == ssa.Value(call) {
+			want[ex2.Index] = (e.Succ == 0) != neg
+		}
+	}
+	if len(want) == 0 {
+		return nil
+	}
+	var cands []*ssa.Return
+	for _, b := range callee.Blocks {
+		ret, isRet := b.Instrs[len(b.Instrs)-1].(*ssa.Return)
+		if !isRet || b == callee.Recover {
+			continue
+		}
+		okRet := true
+		for idx, truth := range want {
+			if idx >= len(ret.Results) {
+				return nil
+			}
+			cv, isC := ret.Results[idx].(*ssa.Const)
+			if !isC {
+				return nil // not a constant companion: undecided
+			}
+			if (constString(cv) == "true") != truth {
+				okRet = false
+			}
+		}
+		if okRet {
+			cands = append(cands, ret)
+		}
+	}
+	if len(cands) != 1 || ex.Index >= len(cands[0].Results) {
+		return nil
+	}
+	return p.substParams(call, callee, p.Sym(cands[0].Results[ex.Index]))
+}
+
+// isProductCallResult: v is (a component of) the result of a call of a product function.
+func isProductCallResult(p *Prog, v ssa.Value) bool {
+	if ex, ok := v.(*ssa.Extract); ok {
+		v = ex.Tuple
+	}
+	call, ok := v.(*ssa.Call)
+	if !ok {
+		return false
+	}
+	cal := p.Callee(call)
+	return cal != nil && p.IsProduct(cal)
+}
+
 func isQuantityFloor(p *Prog, qS *Sym, recv, minPar *ssa.Parameter, positiveAt func(*ssa.Call) bool) bool {
 	if qS.Op != "extract" || qS.Name != "0" || qS.Args[0].Op != "call" {
 		return false
